@@ -1,0 +1,43 @@
+/*
+Copyright 2025 The Volcano Authors.
+
+Licensed under the Apache License, Version 2.0 (the "License");
+you may not use this file except in compliance with the License.
+You may obtain a copy of the License at
+
+    http://www.apache.org/licenses/LICENSE-2.0
+
+Unless required by applicable law or agreed to in writing, software
+distributed under the License is distributed on an "AS IS" BASIS,
+WITHOUT WARRANTIES OR CONDITIONS OF ANY KIND, either express or implied.
+See the License for the specific language governing permissions and
+limitations under the License.
+*/
+
+package util
+
+import (
+	"volcano.sh/volcano/pkg/scheduler/api"
+)
+
+// UnreservedPart returns what is left of total once reserved is set aside, floored at zero in
+// every dimension, and keeps every scalar dimension of total in the result.
+//
+// api.ExceededPart alone drops a scalar dimension whose amount in total does not exceed the
+// amount in reserved.  A queue's realCapability built from it then has no entry for that
+// dimension, and MinDimensionResource(realCapability, Infinity) reads a missing entry as
+// "unbounded": a queue could be given the whole dimension although other queues' guarantees use
+// it up, and its own capability for that dimension was ignored.  With the entry kept at zero the
+// queue is limited to its own guarantee there.
+func UnreservedPart(total, reserved *api.Resource) *api.Resource {
+	rest := api.ExceededPart(total, reserved)
+	if total == nil || rest == total {
+		return rest
+	}
+	for name := range total.ScalarResources {
+		if _, found := rest.ScalarResources[name]; !found {
+			rest.SetScalar(name, 0)
+		}
+	}
+	return rest
+}
